@@ -230,10 +230,11 @@ pub fn property() -> Property {
             "numerals that overflow a double and nesting deeper than 128 are not generated".into(),
             "print / re-parse equality means: identical structure, strings and integers, and every double within 2 ulp (the JSON parser's documented accuracy; the library's own == is stricter than that for subnormals and is not demanded)".into(),
         ],
+        minimise: None,
         subs: vec![
-            Sub::Bytes(BytesSub { name: "documents", f: documents, max_len: 1500, quick: Budget { threads: 8, cases: 4000 }, thorough: Budget { threads: 16, cases: 200_000 } }),
-            Sub::Bytes(BytesSub { name: "scalars", f: scalars, max_len: 64, quick: Budget { threads: 8, cases: 10_000 }, thorough: Budget { threads: 16, cases: 1_000_000 } }),
-            Sub::Bytes(BytesSub { name: "deep", f: deep, max_len: 200, quick: Budget { threads: 4, cases: 1000 }, thorough: Budget { threads: 16, cases: 50_000 } }),
+            Sub::Bytes(BytesSub { name: "documents", f: documents, max_len: 1500, quick: Budget { threads: 8, cases: 4000 }, thorough: Budget { threads: 16, cases: 200_000 }, keep_unreproducible: false }),
+            Sub::Bytes(BytesSub { name: "scalars", f: scalars, max_len: 64, quick: Budget { threads: 8, cases: 10_000 }, thorough: Budget { threads: 16, cases: 1_000_000 }, keep_unreproducible: false }),
+            Sub::Bytes(BytesSub { name: "deep", f: deep, max_len: 200, quick: Budget { threads: 4, cases: 1000 }, thorough: Budget { threads: 16, cases: 50_000 }, keep_unreproducible: false }),
         ],
     }
 }
